@@ -11,6 +11,7 @@
 #include <functional>
 #include <cstring>
 #include <csetjmp>
+#include <new>
 #define VF_MAIN
 #include "vf.h"
 #include "vfsched.h"
@@ -109,12 +110,13 @@ struct Reporter : MemoryLeakFailure {
 };
 
 // ------------------------------------------------------------------ thread scripts
-enum Op : char { N = 'N', D = 'D', A = 'A', a = 'a', M = 'M', R = 'R', r = 'r', F = 'F', X = 'X' };
+enum Op : char { N = 'N', D = 'D', A = 'A', a = 'a', M = 'M', R = 'R', r = 'r', F = 'F', X = 'X', n = 'n', b = 'b', d = 'd', e = 'e' };
+// n / b = new(std::nothrow) / new[](std::nothrow); d / e = the (size, file, line) forms of new / new[] behind the `new` macro: every entry of the thread-safe table
 // r = realloc(NULL, n): the "grow a buffer that starts as NULL" idiom; the block belongs to the malloc family
 // X = misuse: free() of an address that was never allocated. The REAL global reporter fails the "current test" and
 // leaves the wrapper through PlatformSpecificLongJmp (a per-thread seam here); the rest of that thread's script is skipped.
-const char* SCRIPTS[] = { "ND", "Aa", "MF", "MRF", "rRF", "N", "NNDD", "AMaF", "MR", "NDND", "r" };
-constexpr int NSCRIPTS_T = 11;
+const char* SCRIPTS[] = { "ND", "Aa", "MF", "MRF", "rRF", "N", "NNDD", "AMaF", "MR", "NDND", "r", "nD", "ba", "dD", "ea" };
+constexpr int NSCRIPTS_T = 15;
 const char* XSCRIPTS[] = { "ND", "MF", "X", "MXF", "NXD", "MR", "rF" };
 constexpr int NXSCRIPTS = 7;
 const char* const* g_script_table = SCRIPTS;
@@ -145,13 +147,16 @@ void run_script_body(int tid) {
     for (const char* s = t.script; *s; s++) {
         unsigned char pat = (unsigned char)(0x10 * (tid + 1) + (s - t.script));
         switch (*s) {
-        case N: case A: case M: case r: {
-            size_t size = *s == N ? 8 : *s == A ? 5 : *s == M ? 12 : 10;
+        case N: case A: case M: case r: case n: case b: case d: case e: {
+            size_t size = *s == N ? 8 : *s == A ? 5 : *s == M ? 12 : *s == r ? 10 : *s == n ? 9 : *s == b ? 6 : *s == d ? 7 : 4;
             char* p = *s == N ? (char*)operator new(size) : *s == A ? (char*)operator new[](size) : *s == M ? (char*)cpputest_malloc_location(size, "script.c", 10 + tid)
-                                                                                                            : (char*)cpputest_realloc_location(nullptr, size, "script.c", 50 + tid);
+                    : *s == r ? (char*)cpputest_realloc_location(nullptr, size, "script.c", 50 + tid)
+                    : *s == n ? (char*)operator new(size, std::nothrow) : *s == b ? (char*)operator new[](size, std::nothrow)
+                    : *s == d ? (char*)operator new(size, "script.cpp", (size_t)(60 + tid)) : (char*)operator new[](size, "script.cpp", (size_t)(70 + tid));
             t.allocs++;
             if (!p) { t.null_allocs++; break; }
-            Held h{p, size, *s == r ? (char)M : *s, pat}; fill(h); t.held[t.nheld++] = h;
+            char fam = *s == r ? M : (*s == n || *s == d) ? N : (*s == b || *s == e) ? A : *s;
+            Held h{p, size, fam, pat}; fill(h); t.held[t.nheld++] = h;
             break; }
         case D: case a: case F: {
             char fam = *s == D ? N : *s == a ? A : M;
@@ -357,7 +362,7 @@ int main(int argc, char** argv) {
     const Cfg* cfgs = T ? thor : quick; int ncfg = T ? 7 : 4;
     for (int k = 0; k < ncfg; k++) {
         Cfg c = cfgs[k];
-        vf::info(std::string(c.name) + ".bound", vf::fmt("%d threads, all %d^%d script tuples over {ND,Aa,MF,MRF,rRF,N,NNDD,AMaF,MR,NDND,r}[0..%d) (r = realloc(NULL,n)), preemption bound %d%s%s", c.threads, c.scripts, c.threads, c.scripts, c.bound, c.inside ? ", scheduling points also at every detector observation point inside the critical section" : "", c.misuse ? "; script table {ND,MF,X,MXF,NXD,MR,rF} where X is a misuse (free of a never allocated address) reported through the real reporter" : ""));
+        vf::info(std::string(c.name) + ".bound", vf::fmt("%d threads, all %d^%d script tuples over {ND,Aa,MF,MRF,rRF,N,NNDD,AMaF,MR,NDND,r,nD,ba,dD,ea}[0..%d) (r = realloc(NULL,n); n,b = nothrow new/new[]; d,e = new/new[] with file and line), preemption bound %d%s%s", c.threads, c.scripts, c.threads, c.scripts, c.bound, c.inside ? ", scheduling points also at every detector observation point inside the critical section" : "", c.misuse ? "; script table {ND,MF,X,MXF,NXD,MR,rF} where X is a misuse (free of a never allocated address) reported through the real reporter" : ""));
         vf::section_dfs(c.name, c.threads, false, [&](Chooser& ch) { g_detector_mutex = nullptr; g_preempt_inside = c.inside; g_script_table = c.misuse ? XSCRIPTS : SCRIPTS; scenario(ch, c.threads, c.scripts, c.bound); g_preempt_inside = false; });
         vf::require_outcomes(c.name, 20);
     }
